@@ -1,20 +1,26 @@
-(* C04 — "unfreezing / unpausing restores the earlier behaviour": the part that is a theorem.
+(* C04 — "unfreezing / unpausing restores exactly the earlier behaviour": relational simulation.
 
-   [SR s u]: the shard states s and u hold the same accounts, every cell whose key is not a token key (P ++ x)
-   is equal, and the token cells differ at most
+   [SR strict s u]: the shard states s and u hold the same accounts, every cell whose key is not a token key
+   (P ++ x) is equal, and the token cells differ at most
      - in accounts other than the system account, where both cells decode to the same token up to the Properties
-       bytes, and the two Properties agree on [frozen_props] and [all_zero];
+       bytes, and the two Properties agree on [frozen_props] and [all_zero]
+       (strict = true: and only for entries WITHOUT metadata, i.e. fungible entries);
      - in the system account, as long as the pause flag read from the cell ([paused_val]) is the same.
-   freeze_unfreeze_SR / pause_unpause_SR: the state after freeze ; unfreeze (resp. pause ; unpause) is SR-related to
-   the state before (entry not frozen before, all-zero Properties, non-zero value; token not paused before).
-   SR_observables: SR-related states have the same balances, frozen flags and pause flags.
-   props_irrelevance_partial: from SR-related states, under no_faults and when the system account is not a party
-   of the call, EVERY built-in function except the SENDER side of ESDTNFTTransfer / MultiESDTNFTTransfer returns
-   the same status (Ok / the same error / panic), the same output, and SR-related post-states — so the
-   statement iterates along any later history of such calls.
-   NOT covered (hence `_partial`): the sender side of the two NFT transfers.  There the statement is false as it
-   stands: the forwarded payload is the marshalled entry INCLUDING its Properties bytes ([] before, [0;0] after
-   freeze ; unfreeze), so the output differs, and its length enters the data-copy gas guard. *)
+   freeze_unfreeze_SR / pause_unpause_SR   the state after freeze ; unfreeze (resp. pause ; unpause) is SR-related to
+                                the state before (entry not frozen before, all-zero Properties, non-zero value,
+                                no metadata for the strict relation; token not paused before).
+   SR_observables               SR-related states have the same balances, frozen flags and pause flags.
+   props_irrelevance            strict relation: EVERY built-in function, both sides, returns from SR-related states
+                                the same status (Ok / the same error / panic), the same output, and SR-related
+                                post-states; props_irrelevance_history: hence the same results along any history.
+   props_irrelevance_partial    non-strict relation (entries with metadata may differ too): the same for every
+                                function except the SENDER side of ESDTNFTTransfer / MultiESDTNFTTransfer.  For these
+                                the statement is false: the forwarded payload is the marshalled entry INCLUDING its
+                                Properties bytes ([] before, [0;0] after the toggle), so the output differs, and
+                                its length enters the data-copy gas guard.
+   Hypotheses: no_faults (the two runs start at different dependency-call counters), and the system account is
+   not a party of the call (sys_not_party; for the sender side also the destination argument): a party that IS
+   the system account reads its token cells as entries, and those cells hold the pause flags (F8 territory). *)
 From EV Require Import Base.Bytes Base.Store Base.Monad gen.Consts Codec.Types Helpers.Helpers
   Ledger.Types Ledger.Env Ledger.Funcs Ledger.Transfers LedgerProofs.Defs LedgerProofs.EnvSpec
   LedgerProofs.Spec_Transfers_Base LedgerProofs.Spec_System LedgerProofs.C04_Core LedgerProofs.C04_Toggle.
@@ -158,6 +164,8 @@ Section Sim.
   Proof. unfold check_basic. apply stateless_bind; [apply stateless_guard|intros; apply stateless_guard]. Qed.
   Lemma stateless_if {A} (b : bool) (m1 m2 : MT A) : stateless m1 -> stateless m2 -> stateless (if b then m1 else m2).
   Proof. destruct b; auto. Qed.
+  Lemma stateless_bind_panic {A B} (f : A -> MT B) : stateless (bind (panic : MT A) f).
+  Proof. exists Panic. reflexivity. Qed.
   Lemma sim_stateless {A} (m : MT A) : stateless m -> sim eq m m.
   Proof.
     intros [r Hm] s u Hs. unfold rrel. rewrite !Hm. cbn [fst snd]. destruct r; auto.
@@ -393,6 +401,8 @@ Section Sim.
     unfold marshal_tok. eapply sim_bind; [apply sim_dep|]. intros _ _ _ s0 u0 Hs. unfold rrel, ret. cbn [fst snd].
     split; [|exact Hs]. split; reflexivity.
   Qed.
+  Lemma sim_marshal_tok_same t : sim eq (marshal_tok E t) (marshal_tok E t).
+  Proof. unfold marshal_tok. apply sim_bind_eq; [apply sim_dep|]. intros _. apply sim_ret_eq. Qed.
   Lemma sim_unmarshal_tok_same b : sim (fun t u => t = u /\ wf_token t) (unmarshal_tok E b) (unmarshal_tok E b).
   Proof.
     unfold unmarshal_tok. eapply sim_bind; [apply sim_dep|]. intros _ _ _ s0 u0 Hs. unfold rrel, lift_opt.
@@ -421,15 +431,20 @@ Section Sim.
   Lemma sim_load_account a : sim eq (load_account E a) (load_account E a). Proof. apply sim_dep. Qed.
   Lemma sim_save_account a : sim eq (save_account E a) (save_account E a). Proof. apply sim_dep. Qed.
 
+  Lemma sim_if {A} (VR : A -> A -> Prop) (b : bool) (m1 m1' m2 m2' : MT A) :
+    sim VR m1 m1' -> sim VR m2 m2' -> sim VR (if b then m1 else m2) (if b then m1' else m2').
+  Proof. destruct b; auto. Qed.
   Ltac simleaf :=
     first [ apply sim_stateless; solve [sl]
+          | apply sim_if; simleaf
           | apply sim_dep | apply sim_load_account | apply sim_save_account | apply sim_alloc
           | apply sim_check_payable | apply sim_is_paused
           | apply sim_get_latest_nonce | apply sim_save_latest_nonce | apply sim_get_roles | apply sim_save_roles
-          | apply sim_save_kv_same
+          | apply sim_save_kv_same | apply sim_marshal_tok_same
           | apply sim_check_allowed; solve [auto]
           | apply sim_add_to_esdt_balance; solve [auto] ].
   Ltac sb := apply sim_bind_eq; [simleaf|intros ?].
+  Ltac sbg := eapply sim_bind; [simleaf|intros ? ? <-].
 
   (* ---------------- NFT helpers ---------------- *)
   Definition tokrel2 (p q : token * bool) : Prop := tokrel (fst p) (fst q) /\ snd p = snd q.
@@ -451,15 +466,21 @@ Section Sim.
   Qed.
   Lemma tokrel_meta t u : tokrel t u -> t_meta u = t_meta t.
   Proof. intros (_ & _ & -> & _). reflexivity. Qed.
+  (* the looked-up entries are related, and carry metadata exactly when the nonce is positive *)
+  Definition sender_rel (nonce : N) (t u : token) : Prop :=
+    tokrel t u /\ ((0 <? nonce)%N = true -> t_meta t <> None).
   Lemma sim_get_nft_on_sender a key nonce : a <> SYS ->
-    sim tokrel (get_nft_on_sender E a key nonce) (get_nft_on_sender E a key nonce).
+    sim (sender_rel nonce) (get_nft_on_sender E a key nonce) (get_nft_on_sender E a key nonce).
   Proof.
     intros Ha. unfold get_nft_on_sender. eapply sim_bind; [apply sim_get_nft_on_destination; exact Ha|].
     intros [t n] [u n'] [R Hn]. cbn [fst snd] in R, Hn. subst n'. rewrite (tokrel_meta _ _ R).
     eapply sim_bind; [apply sim_stateless; sl|]. intros _ _ _.
+    destruct (negb ((0 <? nonce)%N && match t_meta t with None => true | Some _ => false end)) eqn:Eg;
+      [|apply sim_stateless; sl].
     eapply sim_bind; [apply sim_stateless; sl|]. intros _ _ _.
     eapply sim_bind; [apply sim_stateless; sl|]. intros _ _ _.
-    intros s0 u0 Hs. unfold rrel, ret. cbn [fst snd]. split; assumption.
+    intros s0 u0 Hs. unfold rrel, ret. cbn [fst snd]. split; [|assumption]. split; [exact R|].
+    intros Hpos Hm. rewrite Hpos, Hm in Eg. discriminate.
   Qed.
   Lemma sim_save_nft a x t u rae : a <> SYS -> tokrel t u ->
     sim (fun b c => t = u -> b = c) (save_nft E a (P ++ x) t rae) (save_nft E a (P ++ x) u rae).
@@ -515,8 +536,6 @@ Section Sim.
     intros Ha. unfold f_nft_create. cbv zeta.
     apply sim_bind_eq; [apply sim_stateless, stateless_check_create_burn_add|]. intros _.
     repeat sb.
-    apply sim_bind_eq; [destruct (1 <? bigZ _)%Z; [apply sim_check_allowed; exact Ha|apply sim_ret_eq]|]. intros _.
-    repeat sb.
     apply sim_bind_eq.
     { apply sim_save_nft_same; [exact Ha|]. split; [vm_compute; reflexivity|].
       cbn [t_meta]. split; cbn [md_nonce md_royalties]; [apply u64_lt|apply LedgerProofs.Spec_Supply.u32_lt]. }
@@ -528,7 +547,7 @@ Section Sim.
     intros Ha. unfold f_nft_add_quantity. cbv zeta.
     apply sim_bind_eq; [apply sim_stateless, stateless_check_create_burn_add|]. intros _.
     repeat sb.
-    eapply sim_bind; [apply sim_get_nft_on_sender; exact Ha|]. intros t u R.
+    eapply sim_bind; [apply sim_get_nft_on_sender; exact Ha|]. intros t u [R Rm].
     unfold val_of. rewrite (proj1 (tokrel_value _ _ R)).
     eapply sim_bind; [apply sim_stateless; sl|]. intros v _ <-.
     eapply sim_bind; [apply sim_stateless; sl|]. intros a2 _ <-.
@@ -540,7 +559,7 @@ Section Sim.
     intros Ha. unfold f_nft_burn. cbv zeta.
     apply sim_bind_eq; [apply sim_stateless, stateless_check_create_burn_add|]. intros _.
     repeat sb.
-    eapply sim_bind; [apply sim_get_nft_on_sender; exact Ha|]. intros t u R.
+    eapply sim_bind; [apply sim_get_nft_on_sender; exact Ha|]. intros t u [R Rm].
     unfold val_of. rewrite (proj1 (tokrel_value _ _ R)).
     eapply sim_bind; [apply sim_stateless; sl|]. intros v _ <-.
     eapply sim_bind; [apply sim_stateless; sl|]. intros a2 _ <-.
@@ -553,7 +572,7 @@ Section Sim.
     intros Ha. unfold f_nft_add_uri. cbv zeta.
     apply sim_bind_eq; [apply sim_stateless, stateless_check_create_burn_add|]. intros _.
     repeat sb.
-    eapply sim_bind; [apply sim_get_nft_on_sender; exact Ha|]. intros t u R.
+    eapply sim_bind; [apply sim_get_nft_on_sender; exact Ha|]. intros t u [R Rm].
     unfold meta_of. rewrite (tokrel_meta _ _ R). destruct (t_meta t) as [md|] eqn:Em; [|apply sim_stateless; sl].
     cbn [opt_or_panic]. apply sim_bind_ret.
     eapply sim_bind; [apply sim_save_nft; [exact Ha|]|].
@@ -566,7 +585,7 @@ Section Sim.
     intros Ha. unfold f_nft_update_attributes. cbv zeta.
     apply sim_bind_eq; [apply sim_stateless, stateless_check_create_burn_add|]. intros _.
     repeat sb.
-    eapply sim_bind; [apply sim_get_nft_on_sender; exact Ha|]. intros t u R.
+    eapply sim_bind; [apply sim_get_nft_on_sender; exact Ha|]. intros t u [R Rm].
     unfold meta_of. rewrite (tokrel_meta _ _ R). destruct (t_meta t) as [md|] eqn:Em; [|apply sim_stateless; sl].
     cbn [opt_or_panic]. apply sim_bind_ret.
     eapply sim_bind; [apply sim_save_nft; [exact Ha|]|].
@@ -696,6 +715,113 @@ Section Sim.
     destruct ((_ <? alen (i_args i))%N && is_sc (i_rcpt i))%bool; [|apply sim_ret_eq]. repeat sb. apply sim_ret_eq.
   Qed.
 
+  (* ---------------- sender side of the two NFT transfers (strict relation only) ---------------- *)
+  Lemma sim_add_nft_to_destination_rel dst x t u verify rae : dst <> SYS -> tokrel t u ->
+    sim tokrel (add_nft_to_destination E dst (P ++ x) t verify rae) (add_nft_to_destination E dst (P ++ x) u verify rae).
+  Proof.
+    intros Ha R. unfold add_nft_to_destination.
+    eapply sim_bind; [apply sim_check_payable|]. intros _ _ _.
+    assert (Hn : tok_nonce u = tok_nonce t) by (destruct R as (_ & _ & Hu & _); rewrite Hu; reflexivity). rewrite Hn.
+    eapply sim_bind; [apply sim_get_nft_on_destination; exact Ha|].
+    intros [cur n] [cur' n'] [Rc Hn']. cbn [fst snd] in Rc, Hn'. subst n'.
+    eapply sim_bind; [apply sim_check_froze_and_pause; exact Rc|]. intros _ _ _.
+    rewrite (tokrel_meta _ _ Rc), (tokrel_meta _ _ R). unfold val_of.
+    rewrite (proj1 (tokrel_value _ _ Rc)), (proj1 (tokrel_value _ _ R)).
+    eapply sim_bind.
+    { destruct (t_meta cur); [|apply sim_ret_eq]. apply sim_stateless. unfold lift_opt. destruct (t_meta t); sl. }
+    intros _ _ _. eapply sim_bind; [apply sim_stateless; sl|]. intros v _ <-.
+    eapply sim_bind; [apply sim_stateless; sl|]. intros cv _ <-.
+    eapply sim_bind; [apply sim_save_nft; [exact Ha|apply tokrel_set_value; exact R]|]. intros _ _ _.
+    intros s0 u0 Hs. unfold rrel, ret. cbn [fst snd]. split; [apply tokrel_set_value; exact R|exact Hs].
+  Qed.
+  Lemma sim_transfer_one_sender sndp caller dl dst tok nonce q verify rae :
+    caller <> SYS -> (dl = true -> dst <> SYS) ->
+    sim tokrel (transfer_one_sender E sndp caller dl dst tok nonce q verify rae)
+               (transfer_one_sender E sndp caller dl dst tok nonce q verify rae).
+  Proof.
+    intros Ha Hd. unfold transfer_one_sender. cbv zeta. repeat sb.
+    eapply sim_bind; [apply sim_get_nft_on_sender; exact Ha|]. intros t u [R _].
+    unfold val_of. rewrite (proj1 (tokrel_value _ _ R)).
+    eapply sim_bind; [apply sim_stateless; sl|]. intros v _ <-.
+    eapply sim_bind; [apply sim_stateless; sl|]. intros _ _ _.
+    eapply sim_bind; [apply sim_save_nft; [exact Ha|apply tokrel_set_value; exact R]|]. intros _ _ _.
+    destruct dl.
+    - apply sim_add_nft_to_destination_rel; [auto|apply tokrel_set_value; exact R].
+    - intros s0 u0 Hs. unfold rrel, ret. cbn [fst snd]. split; [apply tokrel_set_value; exact R|exact Hs].
+  Qed.
+  Definition accrel (p q : bytes * token) : Prop := fst p = fst q /\ tokrel (snd p) (snd q).
+  Lemma Forall2_rev' {A} (R : A -> A -> Prop) l l' : Forall2 R l l' -> Forall2 R (rev l) (rev l').
+  Proof.
+    induction 1 as [|x y l l' Hxy Hl IH]; [constructor|]. cbn [rev]. apply Forall2_app; [exact IH|]. constructor; [exact Hxy|constructor].
+  Qed.
+  Lemma sim_multi_sender_loop i dl dst verify : i_caller i <> SYS -> (dl = true -> dst <> SYS) ->
+    forall fuel idx acc acc' logs, Forall2 accrel acc acc' ->
+    sim (fun r r' => Forall2 accrel (fst r) (fst r') /\ snd r = snd r')
+        (multi_sender_loop E fuel i dl dst verify idx acc logs) (multi_sender_loop E fuel i dl dst verify idx acc' logs).
+  Proof.
+    intros Ha Hd fuel. induction fuel as [|f IH]; intros idx acc acc' logs Hacc.
+    - cbn [multi_sender_loop]. intros s0 u0 Hs. unfold rrel, ret. cbn [fst snd]. split; [|exact Hs].
+      split; [apply Forall2_rev'; exact Hacc|reflexivity].
+    - cbn [multi_sender_loop]. cbv zeta. repeat sbg.
+      eapply sim_bind; [apply sim_transfer_one_sender; assumption|]. intros t u R.
+      apply IH. constructor; [split; [reflexivity|exact R]|exact Hacc].
+  Qed.
+  Lemma sim_multi_out_args : strict = true -> forall l l', Forall2 accrel l l' ->
+    forall o acc, sim eq (multi_out_args E l o acc) (multi_out_args E l' o acc).
+  Proof.
+    intros Hst l l' Hl. induction Hl as [|[tok t] [tok' u] l l' [Ht R] Hl IH]; intros o acc; [apply sim_ret_eq|].
+    cbn [fst snd] in Ht, R. subst tok'. cbn [multi_out_args]. rewrite (tokrel_meta _ _ R).
+    destruct (t_meta t) as [m|] eqn:Em.
+    - assert (t = u) by (apply (tokrel_strict _ _ R Hst); rewrite Em; discriminate). subst u.
+      repeat sbg. apply IH.
+    - unfold val_of. rewrite (proj1 (tokrel_value _ _ R)). repeat sbg. apply IH.
+  Qed.
+  Lemma sim_multi_transfer_sender i : strict = true -> i_caller i <> SYS -> argn i 0 <> SYS ->
+    sim eq (f_multi_transfer_sender E i) (f_multi_transfer_sender E i).
+  Proof.
+    intros Hst Ha Hd. unfold f_multi_transfer_sender. cbv zeta.
+    destruct (nth_error (i_args i) 0) as [dst|] eqn:Ed.
+    2:{ apply sim_stateless. unfold arg. change (N.to_nat 0) with 0%nat. rewrite Ed.
+        destruct (0 <? alen (i_args i))%N; apply stateless_bind_panic. }
+    assert (Hdst : arg (i_args i) 0 = (if (0 <? alen (i_args i))%N then ret dst else panic)).
+    { unfold arg. change (N.to_nat 0) with 0%nat. rewrite Ed. reflexivity. }
+    rewrite Hdst. destruct (0 <? alen (i_args i))%N; [|apply sim_stateless, stateless_bind_panic]. apply sim_bind_ret.
+    assert (Hdn : dst <> SYS) by (intros ->; apply Hd; unfold argn; apply nth_error_nth with (d := []) in Ed; exact Ed).
+    repeat sb.
+    eapply sim_bind; [apply sim_multi_sender_loop; [exact Ha|intros _; exact Hdn|constructor]|].
+    intros [lst logs] [lst' logs'] [Hl Hlg]. cbn [fst snd] in Hl, Hlg. subst logs'.
+    repeat sbg.
+    eapply sim_bind; [apply sim_multi_out_args; [exact Hst|exact Hl]|]. intros [args' o] _ <-.
+    repeat sb.
+    destruct (negb (self_shard E =? shard_of E dst)%N); [apply sim_ret_eq|].
+    destruct ((_ <? alen (i_args i))%N && is_sc dst)%bool; [|apply sim_ret_eq]. repeat sb. apply sim_ret_eq.
+  Qed.
+  Lemma sim_nft_transfer_sender i : strict = true -> i_caller i <> SYS -> argn i 3 <> SYS ->
+    sim eq (f_nft_transfer_sender E i) (f_nft_transfer_sender E i).
+  Proof.
+    intros Hst Ha Hd. unfold f_nft_transfer_sender. cbv zeta.
+    destruct (nth_error (i_args i) 3) as [dst|] eqn:Ed.
+    2:{ apply sim_stateless. unfold arg. change (N.to_nat 3) with 3%nat. rewrite Ed.
+        destruct (3 <? alen (i_args i))%N; apply stateless_bind_panic. }
+    assert (Hdst : arg (i_args i) 3 = (if (3 <? alen (i_args i))%N then ret dst else panic)).
+    { unfold arg. change (N.to_nat 3) with 3%nat. rewrite Ed. reflexivity. }
+    rewrite Hdst. destruct (3 <? alen (i_args i))%N; [|apply sim_stateless, stateless_bind_panic]. apply sim_bind_ret.
+    assert (Hdn : dst <> SYS) by (intros ->; apply Hd; unfold argn; apply nth_error_nth with (d := []) in Ed; exact Ed).
+    do 6 sb. destruct (negb (bigU64 x4 =? 0)%N) eqn:En; [|apply sim_stateless; sl].
+    repeat sb.
+    eapply sim_bind; [apply sim_get_nft_on_sender; exact Ha|]. intros t u [R Rm].
+    assert (t = u).
+    { apply (tokrel_strict _ _ R Hst). apply Rm. apply negb_true_iff in En. apply N.eqb_neq in En. apply N.ltb_lt. lia. }
+    subst u. pose proof R as (Wt & _).
+    repeat sb.
+    apply sim_bind_eq; [apply sim_save_nft_same; [exact Ha|apply wf_set_value; exact Wt]|]. intros _.
+    apply sim_bind_eq.
+    { destruct (self_shard E =? shard_of E dst)%N; [|apply sim_ret_eq]. sb.
+      apply sim_bind_eq; [apply sim_add_nft_to_destination; [exact Hdn|apply wf_set_value; exact Wt]|]. intros t'.
+      sb. apply sim_ret_eq. }
+    intros t2. repeat sb. apply sim_ret_eq.
+  Qed.
+
   (* ---------------- through the dispatch ---------------- *)
   Definition nft_sender_side (f : bytes) (i : input) : Prop :=
     (f = C.BuiltInFunctionESDTNFTTransfer \/ f = C.BuiltInFunctionMultiESDTNFTTransfer) /\ i_caller i = i_rcpt i.
@@ -749,6 +875,70 @@ Section Sim.
   Proof.
     intros Hs Hn Hp. pose proof (sim_exec f i Hn Hp s u Hs) as H.
     unfold rrel in H. destruct (exec E f i s) as [[o|e|] s']; destruct (exec E f i u) as [[o'|e'|] u']; exact H.
+  Qed.
+
+  (* with the strict relation (only entries without metadata differ): ALL functions, both sides *)
+  Definition dst_arg (f : bytes) (i : input) : bytes :=
+    if beqb f C.BuiltInFunctionESDTNFTTransfer then argn i 3 else argn i 0.
+  Lemma sim_exec_strict f i : strict = true -> sys_not_party f i ->
+    (nft_sender_side f i -> dst_arg f i <> SYS) -> sim eq (exec E f i) (exec E f i).
+  Proof.
+    intros Hst Hp Hd.
+    destruct (beqb_spec (i_caller i) (i_rcpt i)) as [Heq|Hne].
+    2:{ apply sim_exec; [|exact Hp]. intros [_ Hx]. contradiction. }
+    destruct (beqb_spec f C.BuiltInFunctionESDTNFTTransfer) as [->|N1].
+    { assert (Hs : nft_sender_side C.BuiltInFunctionESDTNFTTransfer i) by (split; auto).
+      specialize (Hd Hs). unfold dst_arg in Hd. rewrite beqb_refl in Hd. party Hp.
+      change (exec E C.BuiltInFunctionESDTNFTTransfer i) with (f_nft_transfer E i).
+      unfold f_nft_transfer. cbv zeta. repeat sb. apply beqb_true in Heq. rewrite Heq.
+      apply sim_nft_transfer_sender; assumption. }
+    destruct (beqb_spec f C.BuiltInFunctionMultiESDTNFTTransfer) as [->|N2].
+    { assert (Hs : nft_sender_side C.BuiltInFunctionMultiESDTNFTTransfer i) by (split; auto).
+      specialize (Hd Hs). unfold dst_arg in Hd. change (beqb C.BuiltInFunctionMultiESDTNFTTransfer C.BuiltInFunctionESDTNFTTransfer) with false in Hd.
+      party Hp.
+      change (exec E C.BuiltInFunctionMultiESDTNFTTransfer i) with (f_multi_transfer E i).
+      unfold f_multi_transfer. cbv zeta. repeat sb. apply beqb_true in Heq. rewrite Heq.
+      apply sim_multi_transfer_sender; assumption. }
+    apply sim_exec; [|exact Hp]. intros [[Hx|Hx] _]; contradiction.
+  Qed.
+  Theorem props_irrelevance f i s u :
+    strict = true -> SR s u -> sys_not_party f i -> (nft_sender_side f i -> dst_arg f i <> SYS) ->
+    match exec E f i s, exec E f i u with
+    | (Ok o, s'), (Ok o', u') => o = o' /\ SR s' u'
+    | (Err e, _), (Err e', _) => e = e'
+    | (Panic, _), (Panic, _) => True
+    | _, _ => False
+    end.
+  Proof.
+    intros Hst Hs Hp Hd. pose proof (sim_exec_strict f i Hst Hp Hd s u Hs) as H.
+    unfold rrel in H. destruct (exec E f i s) as [[o|e|] s']; destruct (exec E f i u) as [[o'|e'|] u']; exact H.
+  Qed.
+
+  (* along a history of later calls (a failed call is rolled back: the state stays) *)
+  Definition step1 (c : bytes * input) (s : mstate) : res err output * mstate :=
+    match exec E (fst c) (snd c) s with
+    | (Ok o, s') => (Ok o, s')
+    | (r, _) => (r, s)
+    end.
+  Fixpoint run_calls (l : list (bytes * input)) (s : mstate) : list (res err output) * mstate :=
+    match l with
+    | [] => ([], s)
+    | c :: r => let (o, s1) := step1 c s in let (os, s2) := run_calls r s1 in (o :: os, s2)
+    end.
+  Definition call_ok (c : bytes * input) : Prop :=
+    sys_not_party (fst c) (snd c) /\ (nft_sender_side (fst c) (snd c) -> dst_arg (fst c) (snd c) <> SYS).
+  Theorem props_irrelevance_history l : strict = true -> Forall call_ok l -> forall s u, SR s u ->
+    fst (run_calls l s) = fst (run_calls l u) /\ SR (snd (run_calls l s)) (snd (run_calls l u)).
+  Proof.
+    intros Hst Hl. induction Hl as [|c r [Hp Hd] Hr IH]; intros s u Hs; [split; [reflexivity|exact Hs]|].
+    cbn [run_calls]. pose proof (props_irrelevance (fst c) (snd c) s u Hst Hs Hp Hd) as H. unfold step1.
+    destruct (exec E (fst c) (snd c) s) as [[o|e|] s']; destruct (exec E (fst c) (snd c) u) as [[o'|e'|] u']; try contradiction.
+    - destruct H as [<- Hs']. destruct (IH s' u' Hs') as [H1 H2].
+      destruct (run_calls r s') as [os s2]; destruct (run_calls r u') as [os' u2]. cbn [fst snd] in *. subst os'. auto.
+    - subst e'. destruct (IH s u Hs) as [H1 H2].
+      destruct (run_calls r s) as [os s2]; destruct (run_calls r u) as [os' u2]. cbn [fst snd] in *. subst os'. auto.
+    - destruct (IH s u Hs) as [H1 H2].
+      destruct (run_calls r s) as [os s2]; destruct (run_calls r u) as [os' u2]. cbn [fst snd] in *. subst os'. auto.
   Qed.
 
   (* ---------------- the toggles produce SR-related states ---------------- *)
@@ -813,7 +1003,7 @@ Section Sim.
         split; [apply tok_at_cell in Hs; tauto|]. split; [apply (dec_enc_tok _ Hc); apply wf_set_props; exact W1|].
         split; [exact W1|]. split; [apply wf_set_props; exact W1|]. split; [reflexivity|].
         cbn [set_props t_props]. split; [rewrite frozen_props_flag_bytes; exact Hf|].
-        split; [rewrite all_zero_flag_bytes; exact Hz|]. intros Hst Hne. exfalso. apply Hne. apply Hmt. exact Hst.
+        split; [rewrite all_zero_flag_bytes; exact Hz|]. intros Hst Hnm. exfalso. apply Hnm. apply Hmt. exact Hst.
     - intros a k Hk. apply Hcell. intros [_ ->]. rewrite prefix_of_app in Hk. discriminate.
     - intros k. f_equal. apply Hcell. intros [Hx _]. apply Hsys. symmetry. exact Hx.
   Qed.
@@ -839,5 +1029,7 @@ End Sim.
 
 Print Assumptions SR_observables.
 Print Assumptions props_irrelevance_partial.
+Print Assumptions props_irrelevance.
+Print Assumptions props_irrelevance_history.
 Print Assumptions freeze_unfreeze_SR.
 Print Assumptions pause_unpause_SR.
